@@ -1,12 +1,14 @@
 //! C06 — hash maps behave as maps for every operation history and hasher.
 //!
-//! One seeded history of insert / remove / get / get_mut / contains_key / len / iter / clear
-//! per run, over a small key alphabet, against every map type of the property; a
-//! `BTreeMap` is the reference model.  The environment seam is the hash function:
+//! One seeded history of insert / remove / get / get_mut / contains_key / len / is_empty / iter / clear
+//! (+ per type: insert_batch / extend, get_or_insert[_with], retain(pred), clone and continued use of both
+//! maps, capacity operations) per run, over a small key alphabet, against every map type of the
+//! property; a `BTreeMap` is the reference model.  The environment seam is the hash function:
 //!
 //! * `ZiporaHashMap<K, V, S>` takes the caller's `BuildHasher`; `SimHasher` returns, per key,
 //!   exactly the 64-bit value the run chose for it (0, u64::MAX, 1, a shared value, values
-//!   equal modulo powers of two, neighbouring values, or a well spread value).
+//!   equal modulo powers of two, neighbouring values, or a well spread value); in the
+//!   `zipora-hashfn` scenario it is one of zipora's own hash functions over natural keys.
 //! * `GoldHashMap` (std `DefaultHasher::new()`, fixed keys), `GoldHashIdx`
 //!   (`AHasher::default()`), `SmallMap` / `EasyHashMap` (`ZiporaHashMap<K, V, ahash::RandomState>`)
 //!   hash internally.  There the pressure comes from the key type's `Hash` impl, which feeds
@@ -15,12 +17,20 @@
 //!   maps only histories whose outcome does not depend on the (process-random) slot layout
 //!   are driven: all keys in one collision class where the underlying table is known to be
 //!   layout-sensitive, see the scenario comments.
+//!
+//! Shape of a history (per-run knobs, swarm style): operation weights (some switched off, some tripled),
+//! `burst` (an insert/remove starts a run of the same operation over consecutive keys, ascending or
+//! descending: fill everything / drain everything), `sticky` (an operation takes the key of the one
+//! before it), `audit` (how much is re-read after every step).  The final state is always compared in full.
 
 use std::collections::{BTreeMap, BTreeSet};
 use std::hash::{BuildHasher, Hash, Hasher};
 use std::sync::Arc;
 use zipora::containers::{EasyHashMap, GoldHashIdx, HashStrMap, SmallMap};
-use zipora::hash_map::{GoldHashMap, GoldHashMapConfig, IterationStrategy, LinkType, ZiporaHashMap, ZiporaHashMapConfig};
+use zipora::hash_map::{
+    advanced_hash_combine, bmi2_hash_combine_u64, fabo_hash_combine_u64, fast_string_hash_bmi2, hash_combine_with_bmi2, hash_with_bmi2, specialized, CombineStrategy, GoldHashMap, GoldHashMapConfig,
+    HashFunctionBuilder, HashStrategy, IterationStrategy, LinkType, OptimizationStrategy, StorageStrategy, ZiporaHashMap, ZiporaHashMapConfig,
+};
 use zipora::memory::{SecureMemoryPool, SecurePoolConfig};
 use zipora::string::FastStr;
 use zsim_core::{Chan, CheckSpec, Run, Scenario, Tier};
@@ -46,21 +56,77 @@ impl Hash for SimKey {
     }
 }
 
-/// The caller-supplied hash function of the run: returns, for every key, exactly the value
-/// the run assigned to it.  Stable within the run (as the `Hash`/`BuildHasher` contract demands).
-#[derive(Clone)]
+/// The caller-supplied hash function of the run.  `mode` 0: returns, for every key, exactly the value
+/// the run assigned to it.  `mode` >= 1: one of zipora's own hash functions (src/hash_map/hash_functions.rs)
+/// applied to what the key's `Hash` impl writes.  Stable within the run (as the `Hash`/`BuildHasher`
+/// contract demands).  `Default` = mode 0 with an empty table: enough for `SimKey` (which writes its value).
+#[derive(Clone, Default)]
 struct SimHasher {
     /// id -> hash, used for keys that arrive as bytes ("k<id>" strings)
     table: Arc<Vec<u64>>,
+    mode: u8,
+    seed: u64,
 }
 struct SimHasherState {
     table: Arc<Vec<u64>>,
+    mode: u8,
+    seed: u64,
     out: u64,
+}
+const N_FN_MODES: u64 = 10;
+fn fn_mode_name(mode: u8) -> &'static str {
+    match mode {
+        1 => "fabo_hash_combine_u64",
+        2 => "bmi2_hash_combine_u64",
+        3 => "advanced_hash_combine",
+        4 => "hash_with_bmi2",
+        5 => "specialized::hash_integer_bmi2",
+        6 => "HashFunctionBuilder(Advanced).build_u64",
+        7 => "hash_combine_with_bmi2",
+        8 => "specialized::hash_complex_key_bmi2",
+        9 => "HashFunctionBuilder(Xor,rot=0).build_u64",
+        10 => "fast_string_hash_bmi2",
+        _ => "per-key table",
+    }
+}
+fn zipora_fn_u64(mode: u8, seed: u64, v: u64) -> u64 {
+    match mode {
+        1 => fabo_hash_combine_u64(seed, v),
+        2 => bmi2_hash_combine_u64(seed, v),
+        3 => advanced_hash_combine(&[seed, v]),
+        4 => hash_with_bmi2(v.to_le_bytes()),
+        5 => specialized::hash_integer_bmi2(v),
+        6 => (HashFunctionBuilder::new().with_rotation(13).with_strategy(CombineStrategy::Advanced).build_u64())(seed, v),
+        7 => hash_combine_with_bmi2(seed, v),
+        8 => specialized::hash_complex_key_bmi2(&[seed, v]),
+        9 => (HashFunctionBuilder::new().with_rotation(0).with_strategy(CombineStrategy::Xor).build_u64())(seed, v),
+        _ => {
+            let b = v.to_le_bytes();
+            let txt: String = b.iter().map(|&c| (b'a' + (c & 15)) as char).collect();
+            fast_string_hash_bmi2(&txt, seed)
+        }
+    }
+}
+fn zipora_fn_bytes(mode: u8, seed: u64, bytes: &[u8]) -> u64 {
+    match mode {
+        4 | 5 | 7 => hash_with_bmi2(bytes),
+        10 | 1 | 2 => fast_string_hash_bmi2(std::str::from_utf8(bytes).unwrap_or("?"), seed),
+        _ => {
+            // the combiners, word by word
+            let mut h = seed;
+            for c in bytes.chunks(8) {
+                let mut w = [0u8; 8];
+                w[..c.len()].copy_from_slice(c);
+                h = zipora_fn_u64(mode, h, u64::from_le_bytes(w));
+            }
+            h
+        }
+    }
 }
 impl BuildHasher for SimHasher {
     type Hasher = SimHasherState;
     fn build_hasher(&self) -> SimHasherState {
-        SimHasherState { table: self.table.clone(), out: 0x0DD0_5EED_0DD0_5EED }
+        SimHasherState { table: self.table.clone(), mode: self.mode, seed: self.seed, out: 0x0DD0_5EED_0DD0_5EED }
     }
 }
 impl Hasher for SimHasherState {
@@ -68,6 +134,12 @@ impl Hasher for SimHasherState {
         self.out
     }
     fn write(&mut self, bytes: &[u8]) {
+        if self.mode != 0 {
+            // str::hash appends a 0xff terminator through write_u8: folded in like any other write
+            let h = zipora_fn_bytes(self.mode, self.seed, bytes);
+            self.out = zipora_fn_u64(self.mode, self.out, h);
+            return;
+        }
         // string keys are "k<decimal id>"; the 0xff terminator str::hash appends is ignored
         if bytes.first() == Some(&b'k') {
             let mut id = 0usize;
@@ -82,7 +154,7 @@ impl Hasher for SimHasherState {
         }
     }
     fn write_u64(&mut self, v: u64) {
-        self.out = v;
+        self.out = if self.mode == 0 { v } else { zipora_fn_u64(self.mode, self.seed, v) };
     }
 }
 
@@ -232,6 +304,104 @@ trait Target {
     fn allow_insert(&self, _k: usize) -> bool {
         true
     }
+    fn is_empty(&self) -> bool;
+    /// `Clone`: set a clone of the map aside (replacing one set aside earlier).  false = the type is not `Clone`.
+    fn fork(&mut self) -> bool {
+        false
+    }
+    /// exchange the map in use and the one set aside
+    fn swap_spare(&mut self) {}
+    /// drop the map set aside
+    fn drop_spare(&mut self) {}
+    /// "entry().or_insert()" style access: (name of the API, value seen through the returned reference).
+    /// Must insert `v` when the key is absent and leave a present key's value alone.  None = no such operation.
+    fn get_or_insert(&mut self, _k: usize, _v: u64, _variant: u64) -> Option<(&'static str, Result<u64, String>)> {
+        None
+    }
+    /// retain(pred) with pred(key) = `keep[key]`.  false = no such operation.
+    fn retain(&mut self, _keep: &[bool]) -> bool {
+        false
+    }
+}
+
+// ---- value types: the statement quantifies over maps, not over `u64` values
+
+/// A value carrying the number `v` the run wrote, in a representation of the run's choice.
+trait Val: Clone + 'static {
+    const NAME: &'static str;
+    fn mk(v: u64) -> Self;
+    /// the number, or `POISON` if the representation is no longer what `mk` built
+    fn rd(&self) -> u64;
+}
+/// rendered as "<a value never written>"
+const POISON: u64 = u64::MAX - 3;
+impl Val for u64 {
+    const NAME: &'static str = "u64";
+    fn mk(v: u64) -> u64 {
+        v
+    }
+    fn rd(&self) -> u64 {
+        *self
+    }
+}
+/// 24 bytes, no heap
+#[derive(Clone)]
+struct W24 {
+    a: u64,
+    b: u64,
+    c: u64,
+}
+impl Val for W24 {
+    const NAME: &'static str = "24-byte struct";
+    fn mk(v: u64) -> W24 {
+        W24 { a: v, b: !v, c: sm(v) }
+    }
+    fn rd(&self) -> u64 {
+        if self.b == !self.a && self.c == sm(self.a) {
+            self.a
+        } else {
+            POISON
+        }
+    }
+}
+/// 1040 bytes: above the 1024-byte class of the global value pools
+#[derive(Clone)]
+struct Big {
+    a: u64,
+    pad: [u64; 129],
+}
+impl Val for Big {
+    const NAME: &'static str = "1040-byte struct";
+    fn mk(v: u64) -> Big {
+        let mut pad = [0u64; 129];
+        for (i, p) in pad.iter_mut().enumerate() {
+            *p = v ^ (i as u64 + 1).wrapping_mul(0x9E37_79B9_7F4A_7C15);
+        }
+        Big { a: v, pad }
+    }
+    fn rd(&self) -> u64 {
+        if self.pad.iter().enumerate().all(|(i, &p)| p == self.a ^ (i as u64 + 1).wrapping_mul(0x9E37_79B9_7F4A_7C15)) {
+            self.a
+        } else {
+            POISON
+        }
+    }
+}
+/// a value owning heap memory (has a destructor)
+#[derive(Clone)]
+struct HeapV(Box<[u64; 2]>);
+impl Val for HeapV {
+    const NAME: &'static str = "Box<[u64; 2]>";
+    fn mk(v: u64) -> HeapV {
+        HeapV(Box::new([v, !v]))
+    }
+    fn rd(&self) -> u64 {
+        if self.0[1] == !self.0[0] {
+            self.0[0]
+        } else {
+            POISON
+        }
+    }
 }
 
 fn kname(k: usize) -> String {
@@ -246,14 +416,21 @@ fn kname(k: usize) -> String {
 
 struct ZMap<K: SimK> {
     m: ZiporaHashMap<K, u64, SimHasher>,
+    spare: Option<ZiporaHashMap<K, u64, SimHasher>>,
     keys: Vec<K>,
 }
 
 impl<K: SimK> ZMap<K> {
     fn new(config: ZiporaHashMapConfig, hashes: &[u64]) -> Result<ZMap<K>, String> {
-        let hb = SimHasher { table: Arc::new(hashes.to_vec()) };
+        ZMap::with_hasher(config, hashes, 0, 0)
+    }
+    fn with_hasher(config: ZiporaHashMapConfig, hashes: &[u64], mode: u8, seed: u64) -> Result<ZMap<K>, String> {
+        let hb = SimHasher { table: Arc::new(hashes.to_vec()), mode, seed };
         let m = ZiporaHashMap::with_config_and_hasher(config, hb).map_err(|e| e.to_string())?;
-        Ok(ZMap { m, keys: hashes.iter().enumerate().map(|(i, &h)| K::make(i, h)).collect() })
+        Ok(ZMap::from_map(m, hashes))
+    }
+    fn from_map(m: ZiporaHashMap<K, u64, SimHasher>, hashes: &[u64]) -> ZMap<K> {
+        ZMap { m, spare: None, keys: hashes.iter().enumerate().map(|(i, &h)| K::make(i, h)).collect() }
     }
 }
 
@@ -279,6 +456,9 @@ impl<K: SimK> Target for ZMap<K> {
     fn len(&self) -> usize {
         self.m.len()
     }
+    fn is_empty(&self) -> bool {
+        self.m.is_empty()
+    }
     fn iter(&self) -> Option<Vec<(usize, u64)>> {
         Some(self.m.iter().map(|(k, v)| (k.id(), *v)).collect())
     }
@@ -288,6 +468,18 @@ impl<K: SimK> Target for ZMap<K> {
     }
     fn capacity(&self) -> usize {
         self.m.capacity()
+    }
+    fn fork(&mut self) -> bool {
+        self.spare = Some(self.m.clone());
+        true
+    }
+    fn swap_spare(&mut self) {
+        if let Some(s) = self.spare.as_mut() {
+            std::mem::swap(&mut self.m, s);
+        }
+    }
+    fn drop_spare(&mut self) {
+        self.spare = None;
     }
 }
 
@@ -320,6 +512,9 @@ impl<L: LinkType> Target for Gold<L> {
     fn len(&self) -> usize {
         self.m.len()
     }
+    fn is_empty(&self) -> bool {
+        self.m.is_empty()
+    }
     fn iter(&self) -> Option<Vec<(usize, u64)>> {
         Some(self.m.iter().map(|(k, v)| (k.id(), *v)).collect())
     }
@@ -328,7 +523,7 @@ impl<L: LinkType> Target for Gold<L> {
         if self.m.deleted_count() == 0 {
             Some(("iter_fast", self.m.iter_fast().map(|(k, v)| (k.id(), *v)).collect()))
         } else {
-            None
+            Some(("iter_with_strategy(Safe)", self.m.iter_with_strategy(IterationStrategy::Safe).map(|(k, v)| (k.id(), *v)).collect()))
         }
     }
     fn clear(&mut self) -> bool {
@@ -362,38 +557,58 @@ impl<L: LinkType> Target for Gold<L> {
     }
 }
 
-// ---- GoldHashIdx<SimKey, u64>
+// ---- GoldHashIdx<SimKey, V>
 
-struct Idx {
-    m: GoldHashIdx<SimKey, u64>,
+struct Idx<V: Val> {
+    m: GoldHashIdx<SimKey, V>,
     keys: Vec<SimKey>,
 }
 
-impl Target for Idx {
+impl<V: Val> Target for Idx<V> {
     fn ty(&self) -> &'static str {
         "GoldHashIdx"
     }
     fn insert(&mut self, k: usize, v: u64, _variant: u64) -> Result<Ret, String> {
-        self.m.insert(self.keys[k].clone(), v).map(Ret::Prev).map_err(|e| e.to_string())
+        self.m.insert(self.keys[k].clone(), V::mk(v)).map(|p| Ret::Prev(p.map(|x| x.rd()))).map_err(|e| e.to_string())
     }
     fn remove(&mut self, k: usize) -> Result<Option<u64>, String> {
-        Ok(self.m.remove(&self.keys[k]))
+        Ok(self.m.remove(&self.keys[k]).map(|x| x.rd()))
     }
     fn get(&self, k: usize, variant: u64) -> Option<u64> {
         if variant % 4 == 3 {
-            self.m.get_batch(std::slice::from_ref(&self.keys[k]))[0].copied()
+            // a batch of three lookups: the key, another key, the key again
+            let other = self.keys[(k + 1 + (variant / 4) as usize % self.keys.len()) % self.keys.len()].clone();
+            let q = [self.keys[k].clone(), other.clone(), self.keys[k].clone()];
+            let r = self.m.get_batch(&q);
+            if r.len() != 3 {
+                return Some(POISON);
+            }
+            let a = r[0].map(|x| x.rd());
+            let c = r[2].map(|x| x.rd());
+            if a != c || r[1].map(|x| x.rd()) != self.m.get(&other).map(|x| x.rd()) {
+                // the batch disagrees with itself or with get(): not what get() alone would say
+                return Some(POISON);
+            }
+            a
         } else {
-            self.m.get(&self.keys[k]).copied()
+            self.m.get(&self.keys[k]).map(|x| x.rd())
         }
     }
     fn get_mut_set(&mut self, k: usize, v: u64, _present: bool) -> Option<Option<u64>> {
-        Some(self.m.get_mut(&self.keys[k]).map(|r| std::mem::replace(r, v)))
+        Some(self.m.get_mut(&self.keys[k]).map(|r| {
+            let old = r.rd();
+            *r = V::mk(v);
+            old
+        }))
     }
     fn contains(&self, k: usize) -> bool {
         self.m.contains_key(&self.keys[k])
     }
     fn len(&self) -> usize {
         self.m.len()
+    }
+    fn is_empty(&self) -> bool {
+        self.m.is_empty()
     }
     fn iter(&self) -> Option<Vec<(usize, u64)>> {
         None
@@ -401,39 +616,48 @@ impl Target for Idx {
     fn clear(&mut self) -> bool {
         false
     }
-    fn neutral(&mut self, _a: u64, _b: u64) -> Option<String> {
+    fn neutral(&mut self, a: u64, _b: u64) -> Option<String> {
+        if a % 4 == 3 {
+            let _ = self.m.memory_usage();
+            return Some("memory_usage".to_string());
+        }
         self.m.shrink_to_fit();
         Some("shrink_to_fit".to_string())
     }
     fn insert_batch(&mut self, items: &[(usize, u64)]) -> Option<Result<(), String>> {
-        let v: Vec<(SimKey, u64)> = items.iter().map(|&(k, v)| (self.keys[k].clone(), v)).collect();
+        let v: Vec<(SimKey, V)> = items.iter().map(|&(k, v)| (self.keys[k].clone(), V::mk(v))).collect();
         Some(self.m.insert_batch(v).map_err(|e| e.to_string()))
     }
 }
 
-// ---- SmallMap<SimKey, u64>
+// ---- SmallMap<SimKey, V>
 
-struct Small {
-    m: SmallMap<SimKey, u64>,
+struct Small<V: Val> {
+    m: SmallMap<SimKey, V>,
+    spare: Option<SmallMap<SimKey, V>>,
     keys: Vec<SimKey>,
     use_iter: bool,
 }
 
-impl Target for Small {
+impl<V: Val> Target for Small<V> {
     fn ty(&self) -> &'static str {
         "SmallMap"
     }
     fn insert(&mut self, k: usize, v: u64, _variant: u64) -> Result<Ret, String> {
-        self.m.insert(self.keys[k].clone(), v).map(Ret::Prev).map_err(|e| e.to_string())
+        self.m.insert(self.keys[k].clone(), V::mk(v)).map(|p| Ret::Prev(p.map(|x| x.rd()))).map_err(|e| e.to_string())
     }
     fn remove(&mut self, k: usize) -> Result<Option<u64>, String> {
-        Ok(self.m.remove(&self.keys[k]))
+        Ok(self.m.remove(&self.keys[k]).map(|x| x.rd()))
     }
     fn get(&self, k: usize, _variant: u64) -> Option<u64> {
-        self.m.get(&self.keys[k]).copied()
+        self.m.get(&self.keys[k]).map(|x| x.rd())
     }
     fn get_mut_set(&mut self, k: usize, v: u64, _present: bool) -> Option<Option<u64>> {
-        Some(self.m.get_mut(&self.keys[k]).map(|r| std::mem::replace(r, v)))
+        Some(self.m.get_mut(&self.keys[k]).map(|r| {
+            let old = r.rd();
+            *r = V::mk(v);
+            old
+        }))
     }
     fn contains(&self, k: usize) -> bool {
         self.m.contains_key(&self.keys[k])
@@ -441,9 +665,12 @@ impl Target for Small {
     fn len(&self) -> usize {
         self.m.len()
     }
+    fn is_empty(&self) -> bool {
+        self.m.is_empty()
+    }
     fn iter(&self) -> Option<Vec<(usize, u64)>> {
         if self.use_iter {
-            Some(self.m.iter().map(|(k, v)| (k.id(), *v)).collect())
+            Some(self.m.iter().map(|(k, v)| (k.id(), v.rd())).collect())
         } else {
             None
         }
@@ -455,12 +682,25 @@ impl Target for Small {
     fn capacity(&self) -> usize {
         self.m.capacity()
     }
+    fn fork(&mut self) -> bool {
+        self.spare = Some(self.m.clone());
+        true
+    }
+    fn swap_spare(&mut self) {
+        if let Some(s) = self.spare.as_mut() {
+            std::mem::swap(&mut self.m, s);
+        }
+    }
+    fn drop_spare(&mut self) {
+        self.spare = None;
+    }
 }
 
 // ---- SmallMap<u8, u64> with its SIMD lookup get_fast (inline storage only: at most 8 keys)
 
 struct SmallU8 {
     m: SmallMap<u8, u64>,
+    spare: Option<SmallMap<u8, u64>>,
     keys: Vec<u8>,
 }
 
@@ -494,6 +734,9 @@ impl Target for SmallU8 {
     fn len(&self) -> usize {
         self.m.len()
     }
+    fn is_empty(&self) -> bool {
+        self.m.is_empty()
+    }
     fn iter(&self) -> Option<Vec<(usize, u64)>> {
         Some(self.m.iter().map(|(k, v)| (self.keys.iter().position(|x| x == k).unwrap_or(usize::MAX), *v)).collect())
     }
@@ -503,6 +746,18 @@ impl Target for SmallU8 {
     }
     fn capacity(&self) -> usize {
         self.m.capacity()
+    }
+    fn fork(&mut self) -> bool {
+        self.spare = Some(self.m.clone());
+        true
+    }
+    fn swap_spare(&mut self) {
+        if let Some(s) = self.spare.as_mut() {
+            std::mem::swap(&mut self.m, s);
+        }
+    }
+    fn drop_spare(&mut self) {
+        self.spare = None;
     }
 }
 
@@ -516,6 +771,8 @@ struct Easy {
     /// a remove succeeded since the table was last rebuilt or cleared
     tomb: bool,
     cap_seen: usize,
+    /// the map was built with a default value (0, which the run never writes)
+    has_default: bool,
 }
 
 impl Easy {
@@ -555,9 +812,18 @@ impl Target for Easy {
     fn get(&self, k: usize, _variant: u64) -> Option<u64> {
         self.m.get(&self.keys[k]).copied()
     }
+    fn get_alt(&self, k: usize) -> Option<(&'static str, Option<u64>)> {
+        // get_or_default is documented for maps built with a default value; the default is 0 and
+        // every value the run writes is >= 1, so "the default came back" reads as "absent"
+        if !self.has_default {
+            return None;
+        }
+        let r = *self.m.get_or_default(&self.keys[k]);
+        Some(("get_or_default", if r == 0 { None } else { Some(r) }))
+    }
     fn get_mut_set(&mut self, k: usize, v: u64, present: bool) -> Option<Option<u64>> {
         // the type's only mutable access is get_or_insert; used as get_mut for keys that are present
-        // (for an absent key it would be an insert)
+        // (for an absent key it is an insert: see get_or_insert below)
         if !present || !self.m.contains_key(&self.keys[k]) {
             return None;
         }
@@ -566,11 +832,24 @@ impl Target for Easy {
             Err(_) => None,
         }
     }
+    fn get_or_insert(&mut self, k: usize, v: u64, variant: u64) -> Option<(&'static str, Result<u64, String>)> {
+        let key = self.keys[k].clone();
+        let r = if variant % 2 == 0 {
+            ("get_or_insert", self.m.get_or_insert(key, v).map(|r| *r).map_err(|e| e.to_string()))
+        } else {
+            ("get_or_insert_with", self.m.get_or_insert_with(key, || v).map(|r| *r).map_err(|e| e.to_string()))
+        };
+        self.note_capacity();
+        Some(r)
+    }
     fn contains(&self, k: usize) -> bool {
         self.m.contains_key(&self.keys[k])
     }
     fn len(&self) -> usize {
         self.m.len()
+    }
+    fn is_empty(&self) -> bool {
+        self.m.is_empty()
     }
     fn iter(&self) -> Option<Vec<(usize, u64)>> {
         None
@@ -580,33 +859,64 @@ impl Target for Easy {
         self.tomb = false;
         true
     }
+    fn retain(&mut self, keep: &[bool]) -> bool {
+        let before = self.m.len();
+        self.m.retain(|k, _| keep[k.id()]);
+        if self.m.len() != before {
+            self.tomb = true;
+        }
+        true
+    }
+    fn insert_batch(&mut self, items: &[(usize, u64)]) -> Option<Result<(), String>> {
+        // extend() is a put per item; in the grow scenario only while the table holds no tombstone
+        // (then no put of the batch can meet one: puts do not make tombstones)
+        if self.guard && self.tomb {
+            return None;
+        }
+        let v: Vec<(SimKey, u64)> = items.iter().map(|&(k, v)| (self.keys[k].clone(), v)).collect();
+        if items.len() % 2 == 0 {
+            self.m.extend(v);
+        } else {
+            std::iter::Extend::extend(&mut self.m, v);
+        }
+        self.note_capacity();
+        Some(Ok(()))
+    }
     fn neutral(&mut self, a: u64, b: u64) -> Option<String> {
         // growth is only driven in the guarded scenario
-        let a = if !self.guard && matches!(a % 5, 2 | 3) { 4 } else { a % 5 };
-        match a {
+        let a = if !self.guard && matches!(a % 7, 2 | 3) { 4 } else { a % 7 };
+        let d = match a {
             0 => {
                 self.m.retain(|_, _| true);
-                Some("retain(all)".to_string())
+                "retain(all)".to_string()
             }
             1 => {
                 self.m.reserve(4);
-                Some("reserve(4)".to_string())
+                let r = self.m.try_reserve((b % 100) as usize);
+                format!("reserve(4), try_reserve({}) -> {}", b % 100, if r.is_ok() { "ok" } else { "err" })
             }
             2 => {
                 let on = !self.m.statistics().auto_grow_enabled;
                 self.m.set_auto_grow(on);
-                Some(format!("set_auto_grow({})", on))
+                format!("set_auto_grow({})", on)
             }
             3 => {
                 let f = [0.75f64, 0.1, 0.25, 0.5, 0.95][(b % 5) as usize];
                 self.m.set_max_load_factor(f);
-                Some(format!("set_max_load_factor({})", f))
+                format!("set_max_load_factor({})", f)
+            }
+            5 | 6 => {
+                // rebuilds the table (from its iterator) when it is less than half full and larger than 32
+                self.m.shrink_to_fit();
+                "shrink_to_fit".to_string()
             }
             _ => {
                 let _ = self.m.statistics();
-                Some("statistics".to_string())
+                "statistics".to_string()
             }
-        }
+        };
+        self.note_capacity();
+        Some(d)
     }
     fn capacity(&self) -> usize {
         self.m.capacity()
@@ -617,12 +927,18 @@ impl Target for Easy {
 
 struct StrMap {
     m: HashStrMap<u64>,
-    keys: Vec<String>,
+    /// the keys as bytes; `text[i]` is Some for the valid UTF-8 ones
+    keys: Vec<Vec<u8>>,
+    text: Vec<Option<String>>,
 }
 
 impl StrMap {
+    fn new(m: HashStrMap<u64>, keys: Vec<Vec<u8>>) -> StrMap {
+        let text = keys.iter().map(|b| String::from_utf8(b.clone()).ok()).collect();
+        StrMap { m, keys, text }
+    }
     fn idx(&self, s: &str) -> usize {
-        self.keys.iter().position(|x| x == s).unwrap_or(usize::MAX)
+        self.text.iter().position(|x| x.as_deref() == Some(s)).unwrap_or(usize::MAX)
     }
 }
 
@@ -631,37 +947,55 @@ impl Target for StrMap {
         "HashStrMap"
     }
     fn insert(&mut self, k: usize, v: u64, variant: u64) -> Result<Ret, String> {
-        let r = match variant % 3 {
-            0 => self.m.insert(&self.keys[k], v),
-            1 => self.m.insert_string(self.keys[k].clone(), v),
-            _ => self.m.insert_fast_str(FastStr::from_string(&self.keys[k]), v),
+        let r = match (&self.text[k], variant % 3) {
+            (Some(s), 0) => self.m.insert(s, v),
+            (Some(s), 1) => self.m.insert_string(s.clone(), v),
+            // the only insert that takes bytes
+            _ => self.m.insert_fast_str(FastStr::new(&self.keys[k]), v),
         };
         r.map(Ret::Prev).map_err(|e| e.to_string())
     }
     fn remove(&mut self, k: usize) -> Result<Option<u64>, String> {
-        Ok(self.m.remove(&self.keys[k]))
+        match &self.text[k] {
+            Some(s) => Ok(self.m.remove(s)),
+            None => Err("the type has no remove for a key that is not UTF-8; not issued".into()),
+        }
     }
     fn get(&self, k: usize, variant: u64) -> Option<u64> {
-        if variant % 2 == 0 {
-            self.m.get(&self.keys[k]).copied()
-        } else {
-            self.m.get_by_fast_str(&FastStr::from_string(&self.keys[k])).copied()
+        match &self.text[k] {
+            Some(s) if variant % 2 == 0 => self.m.get(s).copied(),
+            _ => self.m.get_by_fast_str(&FastStr::new(&self.keys[k])).copied(),
         }
     }
     fn get_mut_set(&mut self, k: usize, v: u64, _present: bool) -> Option<Option<u64>> {
-        Some(self.m.get_mut(&self.keys[k]).map(|r| std::mem::replace(r, v)))
+        let s = self.text[k].as_ref()?;
+        Some(self.m.get_mut(s).map(|r| std::mem::replace(r, v)))
     }
     fn contains(&self, k: usize) -> bool {
-        self.m.contains_key(&self.keys[k]) && self.m.is_interned(&self.keys[k])
+        match &self.text[k] {
+            Some(s) => self.m.contains_key(s) && self.m.is_interned(s),
+            None => self.m.get_by_fast_str(&FastStr::new(&self.keys[k])).is_some(),
+        }
     }
     fn len(&self) -> usize {
         self.m.len()
     }
+    fn is_empty(&self) -> bool {
+        self.m.is_empty()
+    }
     fn iter(&self) -> Option<Vec<(usize, u64)>> {
         Some(self.m.iter().map(|(k, v)| (self.idx(k), *v)).collect())
     }
+    fn iter_alt(&self) -> Option<(&'static str, Vec<(usize, u64)>)> {
+        // keys() and values() walk the same table in the same order
+        Some(("keys+values", self.m.keys().zip(self.m.values()).map(|(k, v)| (self.idx(k), *v)).collect()))
+    }
     fn clear(&mut self) -> bool {
-        self.m.clear();
+        if self.m.len() % 2 == 0 {
+            self.m.clear();
+        } else {
+            self.m.clear_all();
+        }
         true
     }
     fn neutral(&mut self, _a: u64, _b: u64) -> Option<String> {
@@ -674,8 +1008,8 @@ impl Target for StrMap {
 // ---------------------------------------------------------------------------------------
 // the history driver and the oracle
 
-const N_OPS: usize = 10;
-const OP_NAME: [&str; N_OPS] = ["insert", "remove", "get", "get_mut", "contains_key", "len", "iter", "clear", "neutral", "insert_batch"];
+const N_OPS: usize = 13;
+const OP_NAME: [&str; N_OPS] = ["insert", "remove", "get", "get_mut", "contains_key", "len", "iter", "clear", "neutral", "insert_batch", "clone", "get_or_insert", "retain"];
 
 struct Plan {
     nkeys: usize,
@@ -684,6 +1018,11 @@ struct Plan {
     w: [u64; N_OPS],
     /// 0 = only what the history asks; 1 = len + get of every key after every step; 2 = + iteration
     audit: u64,
+    /// 0 = off; else one insert/remove in `burst` starts a run of the same operation over consecutive keys
+    /// (fill everything, drain everything: the states independent draws over a large key set rarely reach)
+    burst: u64,
+    /// 0 = off; else one operation in `sticky` takes the key of the operation before it
+    sticky: u64,
 }
 
 /// size profile: (min keys, max keys, min ops, max ops, weight)
@@ -709,7 +1048,13 @@ fn make_plan(cfg: &Chan, sizes: Sizes, base_w: [u64; N_OPS]) -> Plan {
         }
     }
     let audit = cfg.weighted(&[3, 3, 3]) as u64;
-    Plan { nkeys, planned, w, audit }
+    let burst = *cfg.pick(&[0u64, 0, 4, 8, 16]);
+    let sticky = *cfg.pick(&[0u64, 0, 3, 6]);
+    Plan { nkeys, planned, w, audit, burst, sticky }
+}
+
+fn knobs(p: &Plan) -> String {
+    format!("audit={} burst={} sticky={}", p.audit, p.burst, p.sticky)
 }
 
 /// SmallMap<u8>::get_fast can hand out a slot past the live ones (uninitialised or stale memory):
@@ -821,7 +1166,39 @@ impl Oracle {
             self.fail(cx, t, "len_mismatch", "len", None, format!("len() = {} but {} keys are live", got, self.model.len()), ctx);
             return true;
         }
+        let e = t.is_empty();
+        if e != self.model.is_empty() {
+            self.fail(cx, t, "len_mismatch", "is_empty", None, format!("is_empty() = {} but {} keys are live", e, self.model.len()), ctx);
+            return true;
+        }
         false
+    }
+
+    /// First difference between the map in use and `model` (len, every key, iteration); used for the
+    /// map a clone() made and for the map set aside, where the finding is about clone(), not about get().
+    fn diff(&self, t: &dyn Target, model: &BTreeMap<usize, u64>) -> Option<String> {
+        if t.len() != model.len() {
+            return Some(format!("len() = {} instead of {}", t.len(), model.len()));
+        }
+        if t.is_empty() != model.is_empty() {
+            return Some(format!("is_empty() = {} with {} keys", t.is_empty(), model.len()));
+        }
+        for k in 0..self.nkeys {
+            let want = model.get(&k).copied();
+            let got = t.get(k, 0);
+            if got != want {
+                return Some(format!("get({}) = {} instead of {}", kname(k), show(got, self.last_v), show(want, self.last_v)));
+            }
+        }
+        if let Some(items) = t.iter() {
+            let mut s: Vec<(usize, u64)> = items.clone();
+            s.sort();
+            let want: Vec<(usize, u64)> = model.iter().map(|(&k, &v)| (k, v)).collect();
+            if s != want {
+                return Some(format!("iter() yields {} instead of {}", render_items(&items, self.last_v), render_items(&want, self.last_v)));
+            }
+        }
+        None
     }
 
     fn check_iter(&self, cx: &mut Run, t: &dyn Target, op: &str, items: &[(usize, u64)], ctx: &str) -> bool {
@@ -895,6 +1272,47 @@ fn quals_for(hashes: &[u64]) -> Vec<&'static str> {
         .collect()
 }
 
+/// the map set aside by a clone operation, as the model sees it
+struct Spare {
+    model: BTreeMap<usize, u64>,
+    /// "clone" or "original": which of the two is set aside
+    what: &'static str,
+    step: u64,
+}
+
+fn check_spare(cx: &mut Run, t: &mut dyn Target, o: &Oracle, sp: &Spare, when: &str) -> bool {
+    t.swap_spare();
+    let d = o.diff(&*t, &sp.model);
+    t.swap_spare();
+    if let Some(d) = d {
+        cx.violate(
+            "clone_not_independent",
+            &format!("{}.clone", o.ty),
+            format!("the {} set aside at step {} was not touched since, but {}: {}", sp.what, sp.step, when, d),
+        );
+        return true;
+    }
+    false
+}
+
+/// every key, iteration, len/is_empty of the map in use against the model, booked on the map's own sites
+fn full_check(cx: &mut Run, t: &dyn Target, o: &Oracle, ctx: &str) -> bool {
+    if o.sweep(cx, t, ctx) {
+        return true;
+    }
+    if let Some(items) = t.iter() {
+        if o.check_iter(cx, t, "iter", &items, ctx) {
+            return true;
+        }
+    }
+    if let Some((name, items)) = t.iter_alt() {
+        if o.check_iter(cx, t, name, &items, ctx) {
+            return true;
+        }
+    }
+    o.check_len(cx, t, t.len(), ctx)
+}
+
 fn drive(cx: &mut Run, t: &mut dyn Target, p: &Plan, quals: Vec<&'static str>) {
     let ty = t.ty();
     let mut o = Oracle { ty, nkeys: p.nkeys, quals, model: BTreeMap::new(), ever: BTreeSet::new(), removed: BTreeSet::new(), last_v: 0 };
@@ -902,6 +1320,10 @@ fn drive(cx: &mut Run, t: &mut dyn Target, p: &Plan, quals: Vec<&'static str>) {
     let mut ops = cx.src.ops("ops", p.planned);
     let mut cap = t.capacity();
     let mut inserts_ok = 0u64;
+    let mut spare: Option<Spare> = None;
+    // (kind, next key, direction, operations left)
+    let mut burst: Option<(usize, usize, bool, u64)> = None;
+    let mut last_k = 0usize;
     while let Some(op) = ops.next() {
         cx.steps += 1;
         let mut x = op[0] % total;
@@ -913,10 +1335,30 @@ fn drive(cx: &mut Run, t: &mut dyn Target, p: &Plan, quals: Vec<&'static str>) {
             }
             x -= wi;
         }
-        let k = (op[1] % p.nkeys as u64) as usize;
+        let mut k = (op[1] % p.nkeys as u64) as usize;
+        if let Some((bk, bn, up, left)) = burst {
+            // inside a burst: the same operation over the next key
+            kind = bk;
+            k = bn % p.nkeys;
+            let next = if up { (k + 1) % p.nkeys } else { (k + p.nkeys - 1) % p.nkeys };
+            burst = if left > 1 { Some((bk, next, up, left - 1)) } else { None };
+        } else {
+            if p.sticky > 0 && (op[3] >> 10) % p.sticky == 0 {
+                k = last_k % p.nkeys;
+                cx.probe("same_key_as_previous_operation");
+            }
+            if p.burst > 0 && kind <= 1 && (op[3] >> 5) % p.burst == 0 {
+                let up = (op[3] >> 4) & 1 == 0;
+                let len = 1 + (op[2] >> 3) % (p.nkeys as u64 + 2);
+                let next = if up { (k + 1) % p.nkeys } else { (k + p.nkeys - 1) % p.nkeys };
+                burst = Some((kind, next, up, len));
+                cx.probe(if kind == 0 { "insert_burst" } else { "remove_burst" });
+            }
+        }
+        last_k = k;
         let present = o.model.contains_key(&k);
         cx.cell(format!("{}/{}/{}", ty, OP_NAME[kind], if present { "present" } else { "absent" }));
-        if matches!(kind, 0 | 1 | 3 | 4) {
+        if matches!(kind, 0 | 1 | 3 | 4 | 11) {
             // attribute precisely: an operation's own return value is only judged when a plain
             // lookup of its key was right immediately before it
             let got = t.get(k, 0);
@@ -924,7 +1366,7 @@ fn drive(cx: &mut Run, t: &mut dyn Target, p: &Plan, quals: Vec<&'static str>) {
                 return;
             }
         }
-        let kind = if kind == 0 && !t.allow_insert(k) { 2 } else { kind };
+        let kind = if (kind == 0 || (kind == 11 && !present)) && !t.allow_insert(k) { 2 } else { kind };
         match kind {
             0 => {
                 o.last_v += 1;
@@ -938,6 +1380,9 @@ fn drive(cx: &mut Run, t: &mut dyn Target, p: &Plan, quals: Vec<&'static str>) {
                         o.model.insert(k, v);
                         o.ever.insert(k);
                         inserts_ok += 1;
+                        if o.model.len() == p.nkeys && p.nkeys >= 9 {
+                            cx.probe("every_key_live_9plus");
+                        }
                         match r {
                             Ret::Prev(got) => {
                                 cx.ev(format!("insert({}, {}) -> {}", kname(k), v, show(got, o.last_v)));
@@ -962,6 +1407,9 @@ fn drive(cx: &mut Run, t: &mut dyn Target, p: &Plan, quals: Vec<&'static str>) {
                     let want = o.model.remove(&k);
                     if want.is_some() {
                         o.removed.insert(k);
+                        if o.model.is_empty() && o.ever.len() >= 9 {
+                            cx.probe("drained_to_empty_after_9plus_keys");
+                        }
                     }
                     // the stored value exactly when present; for an absent key no value either
                     // (a value there would mean the key was still stored)
@@ -1025,7 +1473,7 @@ fn drive(cx: &mut Run, t: &mut dyn Target, p: &Plan, quals: Vec<&'static str>) {
             }
             5 => {
                 let got = t.len();
-                cx.ev(format!("len() -> {}", got));
+                cx.ev(format!("len() -> {}, is_empty() -> {}", got, t.is_empty()));
                 if o.check_len(cx, &*t, got, "") {
                     return;
                 }
@@ -1033,6 +1481,9 @@ fn drive(cx: &mut Run, t: &mut dyn Target, p: &Plan, quals: Vec<&'static str>) {
             6 => {
                 if let Some(items) = t.iter() {
                     cx.ev(format!("iter() -> {}", render_items(&items, o.last_v)));
+                    if !o.removed.is_empty() {
+                        cx.probe("iter_after_a_removal");
+                    }
                     if o.check_iter(cx, &*t, "iter", &items, "") {
                         return;
                     }
@@ -1060,7 +1511,7 @@ fn drive(cx: &mut Run, t: &mut dyn Target, p: &Plan, quals: Vec<&'static str>) {
                     cx.ev(d);
                 }
             }
-            _ => {
+            9 => {
                 let n = 1 + (op[2] % 5) as usize;
                 let mut items = vec![];
                 for j in 0..n {
@@ -1086,6 +1537,113 @@ fn drive(cx: &mut Run, t: &mut dyn Target, p: &Plan, quals: Vec<&'static str>) {
                     None => {}
                 }
             }
+            10 => match spare.take() {
+                None => {
+                    // a finding about clone() needs a map that is itself right
+                    if full_check(cx, &*t, &o, &format!(" (checked before clone() at step {})", cx.steps)) {
+                        return;
+                    }
+                    if t.fork() {
+                        cx.ev("clone()");
+                        cx.probe("cloned");
+                        if o.model.len() >= 9 {
+                            cx.probe("cloned_with_9plus_keys");
+                        }
+                        // the clone must be the same map ...
+                        t.swap_spare();
+                        if let Some(d) = o.diff(&*t, &o.model) {
+                            cx.violate("clone_differs", &format!("{}.clone", ty), format!("the clone of a map with {} differs from it: {}", render_items(&o.model.iter().map(|(&k, &v)| (k, v)).collect::<Vec<_>>(), o.last_v), d));
+                            return;
+                        }
+                        // ... and from now on a map of its own: the history goes on with one of the two
+                        let what = if op[2] % 2 == 0 {
+                            t.swap_spare();
+                            "clone"
+                        } else {
+                            cx.ev("continue with the clone");
+                            cx.probe("continued_on_clone");
+                            "original"
+                        };
+                        spare = Some(Spare { model: o.model.clone(), what, step: cx.steps });
+                    }
+                }
+                Some(sp) => {
+                    // the map in use may be set aside now: it must be right by its own sites first
+                    if full_check(cx, &*t, &o, &format!(" (checked before the clone step {})", cx.steps)) {
+                        return;
+                    }
+                    if check_spare(cx, t, &o, &sp, &format!("at step {}", cx.steps)) {
+                        return;
+                    }
+                    cx.probe("set_aside_map_checked_later");
+                    match op[2] % 3 {
+                        0 => {
+                            cx.ev(format!("drop the {} set aside at step {}", sp.what, sp.step));
+                            t.drop_spare();
+                        }
+                        1 => {
+                            cx.ev(format!("drop the map in use, continue with the {} set aside at step {}", sp.what, sp.step));
+                            t.swap_spare();
+                            t.drop_spare();
+                            for &k in o.model.keys() {
+                                o.removed.insert(k);
+                            }
+                            o.model = sp.model;
+                        }
+                        _ => {
+                            cx.ev(format!("exchange the map in use and the {} set aside at step {}", sp.what, sp.step));
+                            t.swap_spare();
+                            let other = if sp.what == "clone" { "original" } else { "clone" };
+                            let mine = std::mem::replace(&mut o.model, sp.model);
+                            spare = Some(Spare { model: mine, what: other, step: sp.step });
+                        }
+                    }
+                }
+            },
+            11 => {
+                let v = o.last_v + 1;
+                match t.get_or_insert(k, v, op[2]) {
+                    Some((name, Ok(got))) => {
+                        let want = o.model.get(&k).copied().unwrap_or(v);
+                        // v was handed to the map (which must not store it under a present key)
+                        o.last_v = v;
+                        if !present {
+                            o.model.insert(k, v);
+                            o.ever.insert(k);
+                            inserts_ok += 1;
+                            cx.probe("get_or_insert_inserted");
+                        }
+                        cx.ev(format!("{}({}, {}) -> {}", name, kname(k), v, show(Some(got), o.last_v)));
+                        if got != want {
+                            o.fail(cx, &*t, "wrong_value", name, Some(k), format!("{}({}, {}) gave a reference to {} but the entry should hold {}", name, kname(k), v, show(Some(got), o.last_v), want), "");
+                            return;
+                        }
+                    }
+                    Some((name, Err(e))) => {
+                        o.last_v = v;
+                        cx.ev(format!("{}({}, {}) -> refused ({})", name, kname(k), v, e));
+                        cx.probe("insert_refused");
+                    }
+                    None => {}
+                }
+            }
+            _ => {
+                let m = 2 + (op[2] % 3) as usize;
+                let r = (op[3] % m as u64) as usize;
+                let keep: Vec<bool> = (0..p.nkeys).map(|i| i % m != r).collect();
+                if t.retain(&keep) {
+                    let before = o.model.len();
+                    let gone: Vec<usize> = o.model.keys().copied().filter(|&k| !keep[k]).collect();
+                    for k in gone {
+                        o.model.remove(&k);
+                        o.removed.insert(k);
+                    }
+                    cx.ev(format!("retain(key % {} != {})", m, r));
+                    if o.model.len() != before {
+                        cx.probe("retain_removed_something");
+                    }
+                }
+            }
         }
         let c = t.capacity();
         if c != cap {
@@ -1093,6 +1651,9 @@ fn drive(cx: &mut Run, t: &mut dyn Target, p: &Plan, quals: Vec<&'static str>) {
                 cx.probe("capacity_grew");
                 if cap == 8 && ty.starts_with("SmallMap") {
                     cx.probe("smallmap_promoted_to_large");
+                }
+                if !o.removed.is_empty() {
+                    cx.probe("capacity_grew_after_removals");
                 }
             } else {
                 cx.probe("capacity_shrank");
@@ -1121,6 +1682,17 @@ fn drive(cx: &mut Run, t: &mut dyn Target, p: &Plan, quals: Vec<&'static str>) {
             }
         }
     }
+    // whatever the history asked for: the final state is always compared in full
+    {
+        if full_check(cx, &*t, &o, " (final check of the whole map)") {
+            return;
+        }
+        if let Some(sp) = spare.take() {
+            if check_spare(cx, t, &o, &sp, "at the end of the run") {
+                return;
+            }
+        }
+    }
     if o.model.len() >= 2 {
         cx.probe("ended_with_2plus_live_keys");
     }
@@ -1143,7 +1715,11 @@ const SZ_LE11: Sizes = &[(3, 8, 4, 30, 3), (9, 11, 20, 80, 2)];
 const SZ_LE16: Sizes = &[(3, 8, 4, 30, 2), (9, 16, 20, 90, 5)];
 const SZ_GROW: Sizes = &[(4, 12, 10, 60, 2), (13, 30, 20, 90, 3), (49, 70, 80, 200, 1)];
 
-const W_ALL: [u64; N_OPS] = [7, 4, 3, 2, 1, 1, 1, 1, 1, 1];
+const W_ALL: [u64; N_OPS] = [7, 4, 3, 2, 1, 1, 1, 1, 1, 1, 0, 0, 0];
+/// + clone
+const W_CLONE: [u64; N_OPS] = [7, 4, 3, 2, 1, 1, 1, 1, 1, 1, 2, 0, 0];
+/// EasyHashMap: + get_or_insert, retain
+const W_EASY: [u64; N_OPS] = [7, 4, 3, 2, 1, 1, 1, 1, 2, 2, 0, 2, 1];
 
 #[derive(Clone, Copy, PartialEq)]
 enum Preset {
@@ -1153,11 +1729,60 @@ enum Preset {
     CacheOptimized,
     StringOptimized,
     SmallInline,
+    /// the public constructors themselves (new / default / with_capacity / with_config) and hand-written configurations
+    Ctor,
+    /// default configuration + clone()
+    Cloning,
+    /// default configuration, the hasher is one of zipora's own hash functions over natural keys
+    ZiporaFn,
 }
 
 struct Zip {
     preset: Preset,
     fam: Fam,
+}
+
+/// A configuration a caller may write by hand (every field of `ZiporaHashMapConfig` is public).
+fn custom_zip_config(cfg: &Chan) -> (ZiporaHashMapConfig, String) {
+    let ic = *cfg.pick(&[16usize, 0, 1, 2, 3, 5, 8, 15, 17, 24, 32, 33, 64]);
+    let ic2 = if cfg.chance(1, 3) { *cfg.pick(&[16usize, 0, 1, 7, 100]) } else { ic };
+    let gf = *cfg.pick(&[2.0f64, 1.5, 1.0, 4.0]);
+    let lf = *cfg.pick(&[0.75f64, 0.5, 1.0, 0.1, 0.99]);
+    let d = *cfg.pick(&[64u16, 1, 2, 0, 16]);
+    let (hs, hn) = match cfg.below(5) {
+        0 => (HashStrategy::RobinHood { max_probe_distance: d, variance_reduction: cfg.chance(1, 2), backward_shift: cfg.chance(1, 2) }, "RobinHood"),
+        1 => (HashStrategy::Chaining { load_factor: lf, hash_cache: cfg.chance(1, 2), compact_links: cfg.chance(1, 2) }, "Chaining"),
+        2 => (HashStrategy::Hopscotch { neighborhood_size: d as u8, displacement_threshold: d }, "Hopscotch"),
+        3 => (HashStrategy::LinearProbing { max_probe_distance: d, cache_aligned: cfg.chance(1, 2) }, "LinearProbing"),
+        _ => (HashStrategy::Cuckoo { num_hash_functions: 2, max_evictions: d }, "Cuckoo"),
+    };
+    let (os, on) = match cfg.below(4) {
+        0 => (OptimizationStrategy::Standard, "Standard"),
+        1 => (OptimizationStrategy::SimdAccelerated { string_ops: true, bulk_ops: true, hash_computation: true }, "SimdAccelerated"),
+        2 => (OptimizationStrategy::CacheAware { prefetch_distance: 2, hot_cold_separation: true, access_pattern_tracking: true }, "CacheAware"),
+        _ => (OptimizationStrategy::HighPerformance { simd_enabled: false, cache_optimized: false, prefetch_enabled: false, numa_aware: false }, "HighPerformance(all off)"),
+    };
+    let c = ZiporaHashMapConfig { hash_strategy: hs, storage_strategy: StorageStrategy::Standard { initial_capacity: ic, growth_factor: gf }, optimization_strategy: os, initial_capacity: ic2, load_factor: lf };
+    (c, format!("Standard{{initial_capacity={}, growth_factor={}}} initial_capacity={} load_factor={} {}(d={}) {}", ic, gf, ic2, lf, hn, d, on))
+}
+
+/// Natural key values for the zipora-hash-function scenario: distinct, with the regularities real keys have.
+fn natural_keys(cfg: &Chan, n: usize) -> (Vec<u64>, &'static str) {
+    let pat = cfg.below(8);
+    let name = ["0,1,2,..", "multiples of 8", "multiples of 2^32", "i << 56", "u64::MAX - i", "i * 0x0101010101010101", "high bit set", "i*i"][pat as usize];
+    let v = (0..n as u64)
+        .map(|i| match pat {
+            0 => i,
+            1 => i * 8,
+            2 => i << 32,
+            3 => i << 56,
+            4 => u64::MAX - i,
+            5 => i.wrapping_mul(0x0101_0101_0101_0101),
+            6 => (1u64 << 63) | i,
+            _ => i * i,
+        })
+        .collect();
+    (v, name)
 }
 
 impl Scenario for Zip {
@@ -1169,6 +1794,9 @@ impl Scenario for Zip {
             Preset::CacheOptimized => "cache_optimized",
             Preset::StringOptimized => "string_optimized",
             Preset::SmallInline => "small_inline",
+            Preset::Ctor => "ctor",
+            Preset::Cloning => "clone",
+            Preset::ZiporaFn => return "ZiporaHashMap.default/zipora-hashfn".into(),
         };
         format!("ZiporaHashMap.{}/{}", p, fam_name(self.fam))
     }
@@ -1180,11 +1808,60 @@ impl Scenario for Zip {
     }
     fn run(&self, cx: &mut Run) {
         let cfg = cx.src.chan("cfg");
-        let plan = make_plan(&cfg, if self.preset == Preset::Pool { SZ_POOL } else { SZ_SMALL }, W_ALL);
+        let w = if self.preset == Preset::Cloning { W_CLONE } else { W_ALL };
+        let plan = make_plan(&cfg, if self.preset == Preset::Pool { SZ_POOL } else { SZ_SMALL }, w);
+        if self.preset == Preset::ZiporaFn {
+            let (vals, pat) = natural_keys(&cfg, plan.nkeys);
+            let mode = 1 + cfg.below(N_FN_MODES) as u8;
+            let seed = *cfg.pick(&[0u64, 1, 0x9E37_79B9_7F4A_7C15, u64::MAX]);
+            let strings = cfg.chance(1, 3);
+            cx.ev(format!("{} keys={} ops<={} {} hasher={}(seed {:#x}) keys: {}{}", self.name(), plan.nkeys, plan.planned, knobs(&plan), fn_mode_name(mode), seed, if strings { "strings k<i>" } else { pat }, ""));
+            if strings {
+                match ZMap::<String>::with_hasher(ZiporaHashMapConfig::default(), &vals, mode, seed) {
+                    Ok(mut t) => drive(cx, &mut t, &plan, vec![]),
+                    Err(e) => cx.ev(format!("constructor refused: {}", e)),
+                }
+            } else {
+                match ZMap::<SimKey>::with_hasher(ZiporaHashMapConfig::default(), &vals, mode, seed) {
+                    Ok(mut t) => drive(cx, &mut t, &plan, vec![]),
+                    Err(e) => cx.ev(format!("constructor refused: {}", e)),
+                }
+            }
+            return;
+        }
         let hashes = gen_hashes(&cfg, plan.nkeys, self.fam);
+        if self.preset == Preset::Ctor {
+            // the constructors that need `S: Default` (SimKey writes its value, so the default SimHasher is the run's hash function)
+            let which = cfg.below(5);
+            let (m, d): (Result<ZiporaHashMap<SimKey, u64, SimHasher>, String>, String) = match which {
+                0 => (ZiporaHashMap::new().map_err(|e| e.to_string()), "new()".into()),
+                1 => (Ok(ZiporaHashMap::default()), "default()".into()),
+                2 => {
+                    let c = *cfg.pick(&[16usize, 0, 1, 15, 17, 20, 24, 31, 32, 33, 48, 64, 100]);
+                    (ZiporaHashMap::with_capacity(c).map_err(|e| e.to_string()), format!("with_capacity({})", c))
+                }
+                _ => {
+                    let (c, d) = custom_zip_config(&cfg);
+                    (ZiporaHashMap::with_config(c).map_err(|e| e.to_string()), format!("with_config({})", d))
+                }
+            };
+            cx.ev(format!("{} keys={} ops<={} {} {}", self.name(), plan.nkeys, plan.planned, knobs(&plan), d));
+            describe_keys(cx, &hashes);
+            match m {
+                Ok(m) => {
+                    let mut t = ZMap::from_map(m, &hashes);
+                    drive(cx, &mut t, &plan, quals_for(&hashes));
+                    if t.m.stats().rehashes > 0 {
+                        cx.probe("zipora_rehash");
+                    }
+                }
+                Err(e) => cx.ev(format!("constructor refused: {}", e)),
+            }
+            return;
+        }
         let mut cap_note = String::new();
         let config = match self.preset {
-            Preset::Default => ZiporaHashMapConfig::default(),
+            Preset::Default | Preset::Cloning => ZiporaHashMapConfig::default(),
             Preset::WithCapacity => ZiporaHashMapConfig::default(),
             Preset::Pool => match SecureMemoryPool::new(SecurePoolConfig::small_secure()) {
                 Ok(p) => ZiporaHashMapConfig::concurrent_pool(p),
@@ -1197,8 +1874,9 @@ impl Scenario for Zip {
                 cap_note = format!(" small_inline({})", n);
                 ZiporaHashMapConfig::small_inline(n)
             }
+            Preset::Ctor | Preset::ZiporaFn => unreachable!(),
         };
-        cx.ev(format!("{} keys={} ops<={} audit={}{}", self.name(), plan.nkeys, plan.planned, plan.audit, cap_note));
+        cx.ev(format!("{} keys={} ops<={} {}{}", self.name(), plan.nkeys, plan.planned, knobs(&plan), cap_note));
         describe_keys(cx, &hashes);
         if self.preset == Preset::StringOptimized {
             match ZMap::<String>::new(config, &hashes) {
@@ -1209,6 +1887,7 @@ impl Scenario for Zip {
         }
         if self.preset == Preset::WithCapacity {
             // ZiporaHashMap::with_capacity needs S: Default; the same configuration is built by hand
+            // (the constructor itself is driven by the ctor scenario)
             let c = *cfg.pick(&[16usize, 0, 1, 17, 20, 24, 31, 32, 33, 48, 64]);
             cx.ev(format!("with_capacity({})", c));
             let mut conf = ZiporaHashMapConfig::default();
@@ -1223,7 +1902,7 @@ impl Scenario for Zip {
             return;
         }
         // the hash qualifier of a site only means something where the storage uses the hash
-        let quals = if matches!(self.preset, Preset::Default | Preset::Pool) { quals_for(&hashes) } else { vec![] };
+        let quals = if matches!(self.preset, Preset::Default | Preset::Pool | Preset::Cloning) { quals_for(&hashes) } else { vec![] };
         match ZMap::<SimKey>::new(config, &hashes) {
             Ok(mut t) => {
                 drive(cx, &mut t, &plan, quals);
@@ -1297,17 +1976,21 @@ impl Scenario for GoldSc {
         let fam = if cfg.chance(1, 2) { Fam::Collide } else { Fam::Spread };
         let hashes = gen_hashes(&cfg, plan.nkeys, fam);
         let (conf, d) = gold_config(&cfg, self.cfg);
-        cx.ev(format!("{} keys={} ops<={} audit={} config: {}", self.name(), plan.nkeys, plan.planned, plan.audit, d));
+        cx.ev(format!("{} keys={} ops<={} {} config: {}", self.name(), plan.nkeys, plan.planned, knobs(&plan), d));
         describe_keys(cx, &hashes);
         let keys: Vec<SimKey> = hashes.iter().enumerate().map(|(i, &h)| SimKey::make(i, h)).collect();
+        // the default configuration also through the constructors that take none
+        let plain = self.cfg == GoldCfg::Presets && d == "default";
         if self.wide {
-            let mut t = Gold::<u64> { m: GoldHashMap::with_config(conf), keys };
+            let m = if plain && plan.nkeys % 2 == 0 { GoldHashMap::new() } else if plain { GoldHashMap::default() } else { GoldHashMap::with_config(conf) };
+            let mut t = Gold::<u64> { m, keys };
             drive(cx, &mut t, &plan, vec![]);
             if t.m.deleted_count() > 0 {
                 cx.probe("gold_ended_with_deleted_slots");
             }
         } else {
-            let mut t = Gold::<u32> { m: GoldHashMap::with_config(conf), keys };
+            let m = if plain && plan.nkeys % 2 == 0 { GoldHashMap::new() } else if plain { GoldHashMap::default() } else { GoldHashMap::with_config(conf) };
+            let mut t = Gold::<u32> { m, keys };
             drive(cx, &mut t, &plan, vec![]);
             if t.m.deleted_count() > 0 {
                 cx.probe("gold_ended_with_deleted_slots");
@@ -1318,11 +2001,43 @@ impl Scenario for GoldSc {
 
 struct IdxSc {
     fam: Fam,
+    /// values larger than a word (GoldHashIdx copies values into pool blocks)
+    wide: bool,
+}
+
+fn run_idx<V: Val>(cx: &mut Run, cfg: &Chan, name: &str, fam: Fam) {
+    let mut plan = make_plan(cfg, SZ_SMALL, W_ALL);
+    // AHasher::default() is seeded per process: report the first divergence at the step that caused
+    // it (what a corrupted table does later, e.g. in a rehash, could depend on the seed)
+    plan.audit = plan.audit.max(1);
+    let hashes = gen_hashes(cfg, plan.nkeys, fam);
+    let c = *cfg.pick(&[16usize, 0, 1, 17, 32, 100]);
+    // a caller's pool must have blocks that hold a value: small_secure() has 1024-byte blocks
+    let own_pool = cfg.chance(1, 3) && std::mem::size_of::<V>() <= 1024;
+    cx.ev(format!("{} keys={} ops<={} {} with_capacity({}) own_pool={} values: {}", name, plan.nkeys, plan.planned, knobs(&plan), c, own_pool, V::NAME));
+    describe_keys(cx, &hashes);
+    let keys: Vec<SimKey> = hashes.iter().enumerate().map(|(i, &h)| SimKey::make(i, h)).collect();
+    let m: GoldHashIdx<SimKey, V> = if own_pool {
+        match SecureMemoryPool::new(SecurePoolConfig::small_secure()) {
+            Ok(p) => GoldHashIdx::with_pool(c, p),
+            Err(_) => return,
+        }
+    } else if c == 16 {
+        if cfg.chance(1, 2) {
+            GoldHashIdx::new()
+        } else {
+            GoldHashIdx::default()
+        }
+    } else {
+        GoldHashIdx::with_capacity(c)
+    };
+    let mut t = Idx { m, keys };
+    drive(cx, &mut t, &plan, vec![]);
 }
 
 impl Scenario for IdxSc {
     fn name(&self) -> String {
-        format!("GoldHashIdx/{}", fam_name(self.fam))
+        format!("GoldHashIdx{}/{}", if self.wide { ".wide" } else { "" }, fam_name(self.fam))
     }
     fn budget(&self, tier: Tier) -> u64 {
         match tier {
@@ -1332,38 +2047,42 @@ impl Scenario for IdxSc {
     }
     fn run(&self, cx: &mut Run) {
         let cfg = cx.src.chan("cfg");
-        let mut plan = make_plan(&cfg, SZ_SMALL, W_ALL);
-        // AHasher::default() is seeded per process: report the first divergence at the step that caused
-        // it (what a corrupted table does later, e.g. in a rehash, could depend on the seed)
-        plan.audit = plan.audit.max(1);
-        let hashes = gen_hashes(&cfg, plan.nkeys, self.fam);
-        let c = *cfg.pick(&[16usize, 0, 1, 17, 32, 100]);
-        let own_pool = cfg.chance(1, 3);
-        cx.ev(format!("{} keys={} ops<={} audit={} with_capacity({}) own_pool={}", self.name(), plan.nkeys, plan.planned, plan.audit, c, own_pool));
-        describe_keys(cx, &hashes);
-        let keys: Vec<SimKey> = hashes.iter().enumerate().map(|(i, &h)| SimKey::make(i, h)).collect();
-        let m = if own_pool {
-            match SecureMemoryPool::new(SecurePoolConfig::small_secure()) {
-                Ok(p) => GoldHashIdx::with_pool(c, p),
-                Err(_) => return,
-            }
-        } else if c == 16 {
-            GoldHashIdx::new()
+        if !self.wide {
+            run_idx::<u64>(cx, &cfg, &self.name(), self.fam);
+        } else if cfg.chance(1, 3) {
+            run_idx::<Big>(cx, &cfg, &self.name(), self.fam);
         } else {
-            GoldHashIdx::with_capacity(c)
-        };
-        let mut t = Idx { m, keys };
-        drive(cx, &mut t, &plan, vec![]);
+            run_idx::<W24>(cx, &cfg, &self.name(), self.fam);
+        }
     }
 }
 
 struct SmallSc {
     use_iter: bool,
+    /// values that own heap memory
+    heap: bool,
+}
+
+fn run_small<V: Val>(cx: &mut Run, cfg: &Chan, name: &str, use_iter: bool) {
+    // The large representation is a ZiporaHashMap with a process-seeded ahash state.  All keys
+    // share one class and at most 16 keys exist, so that table never rehashes and its
+    // behaviour is the same for every seed of the hasher (rotation of one probe cluster).
+    // clone() is built on iter(): only where iteration is driven anyway.
+    let mut plan = make_plan(cfg, SZ_LE16, if use_iter { W_CLONE } else { W_ALL });
+    // every step is followed by a full lookup + len check, so that the first divergence is
+    // reported at the step that caused it (later behaviour of a corrupted table could depend on the seed)
+    plan.audit = plan.audit.max(1);
+    let hashes = gen_hashes(cfg, plan.nkeys, Fam::Same);
+    cx.ev(format!("{} keys={} ops<={} {} values: {}", name, plan.nkeys, plan.planned, knobs(&plan), V::NAME));
+    let keys: Vec<SimKey> = hashes.iter().enumerate().map(|(i, &h)| SimKey::make(i, h)).collect();
+    let m: SmallMap<SimKey, V> = if cfg.chance(1, 4) { SmallMap::default() } else { SmallMap::new() };
+    let mut t = Small { m, spare: None, keys, use_iter };
+    drive(cx, &mut t, &plan, vec![]);
 }
 
 impl Scenario for SmallSc {
     fn name(&self) -> String {
-        format!("SmallMap/{}", if self.use_iter { "iter" } else { "no-iter" })
+        format!("SmallMap{}/{}", if self.heap { ".heap" } else { "" }, if self.use_iter { "iter" } else { "no-iter" })
     }
     fn budget(&self, tier: Tier) -> u64 {
         match tier {
@@ -1373,18 +2092,11 @@ impl Scenario for SmallSc {
     }
     fn run(&self, cx: &mut Run) {
         let cfg = cx.src.chan("cfg");
-        // The large representation is a ZiporaHashMap with a process-seeded ahash state.  All keys
-        // share one class and at most 16 keys exist, so that table never rehashes and its
-        // behaviour is the same for every seed of the hasher (rotation of one probe cluster).
-        let mut plan = make_plan(&cfg, SZ_LE16, W_ALL);
-        // every step is followed by a full lookup + len check, so that the first divergence is
-        // reported at the step that caused it (later behaviour of a corrupted table could depend on the seed)
-        plan.audit = plan.audit.max(1);
-        let hashes = gen_hashes(&cfg, plan.nkeys, Fam::Same);
-        cx.ev(format!("{} keys={} ops<={} audit={}", self.name(), plan.nkeys, plan.planned, plan.audit));
-        let keys: Vec<SimKey> = hashes.iter().enumerate().map(|(i, &h)| SimKey::make(i, h)).collect();
-        let mut t = Small { m: SmallMap::new(), keys, use_iter: self.use_iter };
-        drive(cx, &mut t, &plan, vec![]);
+        if self.heap {
+            run_small::<HeapV>(cx, &cfg, &self.name(), self.use_iter);
+        } else {
+            run_small::<u64>(cx, &cfg, &self.name(), self.use_iter);
+        }
     }
 }
 
@@ -1402,12 +2114,12 @@ impl Scenario for SmallU8Sc {
     }
     fn run(&self, cx: &mut Run) {
         let cfg = cx.src.chan("cfg");
-        let plan = make_plan(&cfg, SZ_TINY, W_ALL);
+        let plan = make_plan(&cfg, SZ_TINY, W_CLONE);
         const PAL: [u8; 9] = [3, 0, 255, 1, 128, 127, 64, 200, 9];
         let rot = cfg.below(9) as usize;
         let keys: Vec<u8> = (0..plan.nkeys).map(|i| PAL[(i + rot) % 9]).collect();
-        cx.ev(format!("{} keys={:?} ops<={} audit={}", self.name(), keys, plan.planned, plan.audit));
-        let mut t = SmallU8 { m: SmallMap::new(), keys };
+        cx.ev(format!("{} keys={:?} ops<={} {}", self.name(), keys, plan.planned, knobs(&plan)));
+        let mut t = SmallU8 { m: SmallMap::new(), spare: None, keys };
         drive(cx, &mut t, &plan, vec![]);
     }
 }
@@ -1437,38 +2149,60 @@ impl Scenario for EasySc {
         //              was last rebuilt/cleared, or when that very put rebuilds the table (which is
         //              the step at which tombstones must disappear).  Other puts become gets.
         // put() returns nothing, so every step is followed by a lookup of every key and len().
-        let mut plan = make_plan(&cfg, if self.grow { SZ_GROW } else { SZ_LE11 }, W_ALL);
+        let mut plan = make_plan(&cfg, if self.grow { SZ_GROW } else { SZ_LE11 }, W_EASY);
         plan.audit = plan.audit.max(1);
         let hashes = gen_hashes(&cfg, plan.nkeys, Fam::Same);
-        let variant = cfg.below(4);
+        let variant = cfg.below(8);
         let lf = *cfg.pick(&[0.75f64, 0.5, 0.25, 0.95, 0.1]);
         let auto = !cfg.chance(1, 4);
-        cx.ev(format!("{} keys={} ops<={} audit={} ctor={} max_load_factor={} auto_grow={}", self.name(), plan.nkeys, plan.planned, plan.audit, variant, lf, auto));
+        cx.ev(format!("{} keys={} ops<={} {} ctor={} max_load_factor={} auto_grow={}", self.name(), plan.nkeys, plan.planned, knobs(&plan), variant, lf, auto));
         let keys: Vec<SimKey> = hashes.iter().enumerate().map(|(i, &h)| SimKey::make(i, h)).collect();
+        let cap = if self.grow { 32 } else { 16 };
+        // the builder's own switches where the scenario allows them (same-hash: never grows)
+        let (b_auto, b_lf) = if self.grow { (auto, lf) } else { (false, 0.95) };
+        let mut has_default = false;
         let mut m: EasyHashMap<SimKey, u64> = match variant {
             0 => EasyHashMap::new(),
-            1 => EasyHashMap::with_default(0),
+            1 => {
+                has_default = true;
+                EasyHashMap::with_default(0)
+            }
             2 => EasyHashMap::initial_capacity(16).build(),
-            _ => EasyHashMap::initial_capacity(if self.grow { 32 } else { 16 }).build(),
+            3 => EasyHashMap::initial_capacity(cap).build(),
+            4 => EasyHashMap::default(),
+            5 => {
+                has_default = true;
+                EasyHashMap::with_default_value(0).auto_grow(b_auto).max_load_factor(b_lf).build()
+            }
+            6 => EasyHashMap::initial_capacity(cap).auto_grow(b_auto).max_load_factor(b_lf).build(),
+            _ => {
+                has_default = true;
+                EasyHashMap::initial_capacity(0).with_default(0).build()
+            }
         };
         if self.grow {
-            m.set_max_load_factor(lf);
-            m.set_auto_grow(auto);
+            if !matches!(variant, 5 | 6) {
+                m.set_max_load_factor(lf);
+                m.set_auto_grow(auto);
+            }
         } else {
             // 11 of 16 slots stay below every load factor that is used here
             m.set_auto_grow(false);
         }
         let cap_seen = m.capacity();
-        let mut t = Easy { m, keys, guard: self.grow, tomb: false, cap_seen };
+        let mut t = Easy { m, keys, guard: self.grow, tomb: false, cap_seen, has_default };
         drive(cx, &mut t, &plan, vec![]);
     }
 }
 
-struct StrSc;
+struct StrSc {
+    /// keys that are not UTF-8 (they exist only for the FastStr entry points)
+    bytes: bool,
+}
 
 impl Scenario for StrSc {
     fn name(&self) -> String {
-        "HashStrMap/str".into()
+        if self.bytes { "HashStrMap/bytes".into() } else { "HashStrMap/str".into() }
     }
     fn budget(&self, tier: Tier) -> u64 {
         match tier {
@@ -1480,12 +2214,26 @@ impl Scenario for StrSc {
         let cfg = cx.src.chan("cfg");
         let plan = make_plan(&cfg, &[(3, 12, 4, 40, 1)], W_ALL);
         let long = "a".repeat(40);
+        let m = |cfg: &Chan| if cfg.chance(1, 2) { HashStrMap::with_capacity(cfg.below(4) as usize) } else if cfg.chance(1, 2) { HashStrMap::default() } else { HashStrMap::new() };
+        if self.bytes {
+            // FastStr::new takes any bytes; insert_fast_str / get_by_fast_str are the byte-keyed map
+            let pal: [&[u8]; 8] = [b"a", b"\xff", b"b", b"\xfe", b"a\xff", b"\xc3", b"ab", b"\xe9"];
+            let rot = cfg.below(8) as usize;
+            let keys: Vec<Vec<u8>> = (0..plan.nkeys.min(8)).map(|i| pal[(i + rot) % 8].to_vec()).collect();
+            let mut plan = plan;
+            plan.nkeys = keys.len();
+            let shown: Vec<String> = keys.iter().map(|b| b.iter().map(|&c| if c.is_ascii_graphic() { (c as char).to_string() } else { format!("\\x{:02x}", c) }).collect()).collect();
+            cx.ev(format!("{} keys={:?} ops<={} {}", self.name(), shown, plan.planned, knobs(&plan)));
+            let quals: Vec<&'static str> = keys.iter().map(|b| if std::str::from_utf8(b).is_ok() { "" } else { "[non-utf8-key]" }).collect();
+            let mut t = StrMap::new(m(&cfg), keys);
+            drive(cx, &mut t, &plan, quals);
+            return;
+        }
         let pal: [&str; 12] = ["a", "", "b", "ab", "a\0", "\0", "\u{e9}", &long, "k1", "K1", " a", "a "];
         let rot = cfg.below(12) as usize;
         let keys: Vec<String> = (0..plan.nkeys).map(|i| pal[(i + rot) % 12].to_string()).collect();
-        cx.ev(format!("{} keys={:?} ops<={} audit={}", self.name(), keys, plan.planned, plan.audit));
-        let m = if cfg.chance(1, 2) { HashStrMap::with_capacity(cfg.below(4) as usize) } else { HashStrMap::new() };
-        let mut t = StrMap { m, keys };
+        cx.ev(format!("{} keys={:?} ops<={} {}", self.name(), keys, plan.planned, knobs(&plan)));
+        let mut t = StrMap::new(m(&cfg), keys.into_iter().map(|s| s.into_bytes()).collect());
         drive(cx, &mut t, &plan, vec![]);
     }
 }
@@ -1494,8 +2242,10 @@ fn main() {
     let mut spec = CheckSpec::new(
         "C06",
         "exploration",
-        "seeded operation histories (insert/remove/get/get_mut/contains_key/len/iter/clear + type-specific neutral operations) x seeded key sets x seeded hash function \
-         (per-key value from {spread, shared, equal mod 2^k, neighbouring, 0, u64::MAX, 1, u64::MAX-1, 1<<63}) x map type/configuration, compared step by step with a BTreeMap; \
+        "seeded operation histories (insert/remove/get/get_mut/contains_key/len/is_empty/iter/clear + per type insert_batch/extend, get_or_insert, retain(pred), clone with continued use of both maps, \
+         capacity operations; independent draws plus fill/drain bursts over consecutive keys and same-key-again steps) x seeded key sets x seeded hash function \
+         (per-key value from {spread, shared, equal mod 2^k, neighbouring, 0, u64::MAX, 1, u64::MAX-1, 1<<63}, or one of zipora's own hash functions over natural keys) x map type/constructor/configuration x value representation, \
+         compared step by step and at the end with a BTreeMap; \
          non-trivial = at least 3 operations executed and at least one insert accepted; distinct = distinct hash of the event trace (configuration, hash table, operations and observed results)",
     );
     spec.assumptions = vec![
@@ -1503,16 +2253,20 @@ fn main() {
         "ahash is seeded from the OS once per process: SmallMap's large representation and EasyHashMap are driven with all keys in one collision class and without a rehash-with-tombstones, the only histories whose outcome is the same for every seed; GoldHashIdx is also driven with distinct classes (its answers did not depend on the seed in any run)".into(),
         "GoldHashMap's Fast iteration strategy is documented to yield deleted entries and is only compared when deleted_count() == 0".into(),
         "an Err from insert/remove is a refusal: the map must then be unchanged".into(),
+        "clone(): the statement lists insert/remove/get/get_mut/clear; that a clone answers like the map it was made from (class clone_differs) and that the two are independent afterwards (clone_not_independent) is the Clone contract read as part of 'answers like a mathematical map'; both have their own classes so that they can be told apart from the statement's own clauses".into(),
+        "EasyHashMap::get_or_default is only called on maps built with a default value (documented precondition); a caller-supplied value pool for GoldHashIdx is only used with values that fit its blocks".into(),
+        "HashStrMap keys that are not UTF-8 exist only for the FastStr entry points (insert_fast_str / get_by_fast_str); remove/get_mut are not issued for them".into(),
         "single-threaded; no allocation failure".into(),
     ];
     spec.components = vec![
-        ("hash_map::ZiporaHashMap (all presets)", "real"),
+        ("hash_map::ZiporaHashMap (all presets, public constructors, hand-written configurations, Clone)", "real"),
         ("hash_map::GoldHashMap<u32|u64>", "real"),
-        ("containers::GoldHashIdx + SecureMemoryPool", "real"),
-        ("containers::SmallMap (generic and u8/get_fast)", "real"),
-        ("containers::EasyHashMap", "real"),
-        ("containers::HashStrMap", "real"),
-        ("BuildHasher supplied to ZiporaHashMap", "stub (SimHasher: per-key value chosen by the run)"),
+        ("containers::GoldHashIdx + SecureMemoryPool (8-, 24- and 1040-byte values)", "real"),
+        ("containers::SmallMap (generic and u8/get_fast, Clone, heap-owning values)", "real"),
+        ("containers::EasyHashMap (+ builder, extend, get_or_insert[_with], get_or_default, retain, shrink_to_fit)", "real"),
+        ("containers::HashStrMap (str and FastStr entry points)", "real"),
+        ("hash_map::hash_functions (fabo/bmi2/advanced combine, hash_with_bmi2, specialized::*, HashFunctionBuilder, fast_string_hash_bmi2) as the map's hasher", "real"),
+        ("BuildHasher supplied to ZiporaHashMap", "stub (SimHasher: per-key value chosen by the run, or a zipora hash function)"),
         ("Hash impl of the key type", "stub (feeds the run's class value)"),
     ];
     for fam in [Fam::Spread, Fam::Collide, Fam::Sentinel] {
@@ -1525,16 +2279,23 @@ fn main() {
     spec.scenarios.push(Box::new(Zip { preset: Preset::CacheOptimized, fam: Fam::Mixed }));
     spec.scenarios.push(Box::new(Zip { preset: Preset::StringOptimized, fam: Fam::Mixed }));
     spec.scenarios.push(Box::new(Zip { preset: Preset::SmallInline, fam: Fam::Mixed }));
+    spec.scenarios.push(Box::new(Zip { preset: Preset::Ctor, fam: Fam::Mixed }));
+    spec.scenarios.push(Box::new(Zip { preset: Preset::Cloning, fam: Fam::Mixed }));
+    spec.scenarios.push(Box::new(Zip { preset: Preset::ZiporaFn, fam: Fam::Spread }));
     spec.scenarios.push(Box::new(GoldSc { wide: false, cfg: GoldCfg::Presets }));
     spec.scenarios.push(Box::new(GoldSc { wide: false, cfg: GoldCfg::Custom }));
     spec.scenarios.push(Box::new(GoldSc { wide: true, cfg: GoldCfg::Custom }));
-    spec.scenarios.push(Box::new(IdxSc { fam: Fam::Same }));
-    spec.scenarios.push(Box::new(IdxSc { fam: Fam::Collide }));
-    spec.scenarios.push(Box::new(SmallSc { use_iter: true }));
-    spec.scenarios.push(Box::new(SmallSc { use_iter: false }));
+    spec.scenarios.push(Box::new(GoldSc { wide: true, cfg: GoldCfg::Presets }));
+    spec.scenarios.push(Box::new(IdxSc { fam: Fam::Same, wide: false }));
+    spec.scenarios.push(Box::new(IdxSc { fam: Fam::Collide, wide: false }));
+    spec.scenarios.push(Box::new(IdxSc { fam: Fam::Collide, wide: true }));
+    spec.scenarios.push(Box::new(SmallSc { use_iter: true, heap: false }));
+    spec.scenarios.push(Box::new(SmallSc { use_iter: false, heap: false }));
+    spec.scenarios.push(Box::new(SmallSc { use_iter: true, heap: true }));
     spec.scenarios.push(Box::new(SmallU8Sc));
     spec.scenarios.push(Box::new(EasySc { grow: false }));
     spec.scenarios.push(Box::new(EasySc { grow: true }));
-    spec.scenarios.push(Box::new(StrSc));
+    spec.scenarios.push(Box::new(StrSc { bytes: false }));
+    spec.scenarios.push(Box::new(StrSc { bytes: true }));
     zsim_core::driver::main(spec);
 }
